@@ -554,27 +554,72 @@ end Agd.ProfileDB
 
 namespace Agd.ProfileCache
 
-/-- Caches as the backend converter produces them (see `CanonAuth`). -/
-def Canon (c : Cache) : Prop := ∀ d ∈ c.devices, CanonAuth d.auth
+/-- Caches as the backend converter produces them: canonical authentication settings (see
+`CanonAuth`) and addresses that are `netip.Addr` values (4 or 16 bytes; any zone). -/
+def Canon (c : Cache) : Prop :=
+  (∀ d ∈ c.devices, CanonAuth d.auth ∧ d.linked.WF ∧ ∀ a ∈ d.dedicated, a.WF) ∧
+  (∀ p ∈ c.profiles, BmWF p.blockingMode)
 
-/-- **filecache_roundtrip.** Reading back what was written returns the cache unchanged — sync time,
-version, and every field of every profile and device (all combinations of schedule / access /
-blocking mode / rate limiter / authentication variants, any TTL, any 16-bit day interval). -/
-theorem filecache_roundtrip (c : Cache) (h : Canon c) : fromPb (toPb c) = c := by
+/-- **addr_codec_roundtrip.** The binary form the cache stores for a linked, dedicated or custom
+blocking address reads back as the same address: zero value, IPv4, IPv6, IPv4-mapped IPv6 and ANY
+zone. -/
+theorem addr_codec_roundtrip (a : Addr) (h : a.WF) : Addr.unmarshal a.marshal = some a :=
+  addr_rt a h
+
+/-- **addr_codec_injective.** Addresses that are different keys in memory (different zone, IPv4 vs.
+IPv4-mapped, zero vs. unspecified) have different binary forms: the restarted database cannot merge
+or swap two keys. -/
+theorem addr_codec_injective (a b : Addr) (ha : a.WF) (hb : b.WF) (h : a.marshal = b.marshal) : a = b :=
+  marshal_inj a b ha hb h
+
+/-- **addr_decode_canonical.** Whatever bytes the backend (or a cache file) carries, if
+`UnmarshalBinary` accepts them the result is a well-formed address whose binary form is exactly
+those bytes. -/
+theorem addr_decode_canonical (b : List Nat) (a : Addr) (h : Addr.unmarshal b = some a) :
+    a.WF ∧ a.marshal = b :=
+  ⟨unmarshal_wf b a h, marshal_unmarshal b a h⟩
+
+def exZoned : Addr := .v6 [254, 128, 0, 0, 0, 0, 0, 0, 0, 0, 0, 0, 0, 0, 18, 52] [101, 116, 104, 48]
+def exMapped : Addr := .v6 [0, 0, 0, 0, 0, 0, 0, 0, 0, 0, 255, 255, 192, 0, 2, 1] []
+
+/-- Non-vacuity and sensitivity: `fe80::1234%eth0`, its zone-less twin, `::ffff:192.0.2.1`,
+`192.0.2.1`, `0.0.0.0` and the zero value are six different keys with six different binary forms,
+each read back unchanged; the zone-less form `AsSlice` (which is NOT what the cache writes) would
+turn the first into the second. -/
+example : exZoned.WF ∧ exMapped.WF ∧
+    Addr.unmarshal exZoned.marshal = some exZoned ∧
+    Addr.unmarshal exZoned.asSlice = some (.v6 [254, 128, 0, 0, 0, 0, 0, 0, 0, 0, 0, 0, 0, 0, 18, 52] []) ∧
+    Addr.unmarshal exZoned.asSlice ≠ some exZoned ∧
+    Addr.unmarshal exMapped.marshal = some exMapped ∧
+    Addr.unmarshal (Addr.v4 [192, 0, 2, 1]).marshal = some (.v4 [192, 0, 2, 1]) ∧
+    Addr.unmarshal (Addr.v4 [0, 0, 0, 0]).marshal = some (.v4 [0, 0, 0, 0]) ∧
+    Addr.unmarshal Addr.zero.marshal = some .zero ∧
+    Addr.unmarshal [1, 2, 3] = none := by decide
+
+/-- **filecache_roundtrip.** Reading back what was written succeeds and returns the cache unchanged —
+sync time, version, and every field of every profile and device (all combinations of schedule /
+access / blocking mode / rate limiter / authentication variants, any TTL, any 16-bit day interval,
+linked, dedicated and custom blocking addresses of every family with any zone). -/
+theorem filecache_roundtrip (c : Cache) (h : Canon c) : fromPb (toPb c) = some c := by
   obtain ⟨ss, sn, ps, ds, v⟩ := c
-  simp only [fromPb, toPb, Cache.mk.injEq, true_and, and_true]
-  exact ⟨list_rt profileToPb profileFromPb ps (fun p _ => profile_rt p),
-    list_rt deviceToPb deviceFromPb ds (fun d hd => device_rt d (h d hd))⟩
+  obtain ⟨hd, hp⟩ := h
+  have h1 := optAll_rt profileToPb profileFromPb ps (fun p hm => profile_rt p (hp p hm))
+  have h2 := optAll_rt deviceToPb deviceFromPb ds
+    (fun d hm => device_rt d (hd d hm).1 (hd d hm).2.1 (hd d hm).2.2)
+  simp only [fromPb, toPb, h1, h2]
 
 def exAuthDevice : Device :=
-  { auth := { enabled := true, dohOnly := true, pw := .allow }, id := 1, linked := 2, name := 3,
-    human := 4, dedicated := [5], filtering := true }
+  { auth := { enabled := true, dohOnly := true, pw := .allow }, id := 1, linked := exZoned, name := 3,
+    human := 4, dedicated := [exMapped, .v4 [198, 51, 100, 7]], filtering := true }
 
 example : Canon { syncSec := -5, syncNsec := 7, profiles := [], devices := [exAuthDevice], version := 15 } := by
-  intro d hd
-  simp at hd
-  subst hd
-  decide
+  refine ⟨?_, ?_⟩
+  · intro d hd
+    simp at hd
+    subst hd
+    decide
+  · intro p hp
+    simp at hp
 
 /-- **backend_values_canon.** Whatever the backend sends, the authentication settings that
 `backendpb` makes of it are canonical — the hypothesis of `filecache_roundtrip` is a property of
@@ -591,16 +636,38 @@ theorem backend_values_canon (a : Option PbAuth) : CanonAuth (backendAuth a) := 
       · intro h; cases h
       · intro h; cases h
 
-/-- **backend_cache_roundtrip.** A cache whose devices came out of the `backendpb` converter (any
-wire input) is read back unchanged — no assumption on the values left.  (Rate limiter and access
-settings need no canonical form: `agd.DefaultRatelimiter` does not keep an enabled flag and
-`backendpb` maps absent or disabled settings to the global limiter / the empty access profile.) -/
-theorem backend_cache_roundtrip (c : Cache) (hd : ∀ d ∈ c.devices, ∃ w, d.auth = backendAuth w) :
-    fromPb (toPb c) = c := by
+/-- **backend_cache_roundtrip.** A cache whose devices and blocking modes came out of the `backendpb`
+converter (any wire input: any authentication message, any address bytes the converter accepts —
+zoned ones included) is read back unchanged — no assumption on the values left.  (Rate limiter
+and access settings need no canonical form: `agd.DefaultRatelimiter` does not keep an enabled flag
+and `backendpb` maps absent or disabled settings to the global limiter / the empty access
+profile.) -/
+theorem backend_cache_roundtrip (c : Cache)
+    (hd : ∀ d ∈ c.devices, (∃ w, d.auth = backendAuth w) ∧ FromWire d.linked ∧ ∀ a ∈ d.dedicated, FromWire a)
+    (hp : ∀ p ∈ c.profiles, ∀ v4 v6, p.blockingMode = .customIP v4 v6 → ∀ a ∈ v4 ++ v6, FromWire a) :
+    fromPb (toPb c) = some c := by
   apply filecache_roundtrip
-  intro d hm
-  obtain ⟨w, hw⟩ := hd d hm
-  rw [hw]; exact backend_values_canon w
+  refine ⟨?_, ?_⟩
+  · intro d hm
+    obtain ⟨⟨w, hw⟩, hl, hde⟩ := hd d hm
+    refine ⟨?_, fromWire_wf _ hl, fun a ha => fromWire_wf _ (hde a ha)⟩
+    rw [hw]; exact backend_values_canon w
+  · intro p hm
+    cases hbm : p.blockingMode with
+    | customIP v4 v6 =>
+      have := hp p hm v4 v6 hbm
+      exact ⟨fun a ha => fromWire_wf _ (this a (List.mem_append_left _ ha)),
+             fun a ha => fromWire_wf _ (this a (List.mem_append_right _ ha))⟩
+    | nxdomain => trivial
+    | nullIP => trivial
+    | refused => trivial
+
+/-- Non-vacuity: a 20-byte linked IP from the wire is the zoned address, and such a device
+satisfies the hypotheses of `backend_cache_roundtrip`. -/
+example : Addr.unmarshal exZoned.marshal = some exZoned ∧ FromWire exZoned ∧ FromWire exMapped ∧
+    FromWire (.v4 [198, 51, 100, 7]) ∧ FromWire .zero :=
+  ⟨by decide, ⟨exZoned.marshal, by decide⟩, ⟨exMapped.marshal, by decide⟩, ⟨[198, 51, 100, 7], by decide⟩,
+   ⟨[], by decide⟩⟩
 
 example : backendRate (some { enabled := false, rps := 5, cidr := [(1, 24)] }) = .global ∧
     backendRate (some { enabled := true, rps := 5, cidr := [(1, 24)] }) = .default [(1, 24)] 5 ∧
@@ -615,9 +682,9 @@ no DoH password" (which the backend converter produces) into a nil authenticator
 reader returns the device unchanged. -/
 theorem filecache_auth_counterexample :
     CanonAuth exAuthDevice.auth ∧
-    deviceFromPbOld (deviceToPb exAuthDevice) ≠ exAuthDevice ∧
-    (deviceFromPbOld (deviceToPb exAuthDevice)).auth.pw = .nilHash ∧
-    deviceFromPb (deviceToPb exAuthDevice) = exAuthDevice := by
+    deviceFromPbOld (deviceToPb exAuthDevice) ≠ some exAuthDevice ∧
+    (deviceFromPbOld (deviceToPb exAuthDevice)).map (·.auth.pw) = some .nilHash ∧
+    deviceFromPb (deviceToPb exAuthDevice) = some exAuthDevice := by
   refine ⟨by decide, by decide, by decide, by decide⟩
 
 /-- **load_decision_spec.** The cache is used exactly when its version is current and it holds at
@@ -683,6 +750,9 @@ end Agd.ProfileCache
 #print axioms Agd.ProfileDB.request_time_no_gap
 #print axioms Agd.ProfileDB.lookups_track_backend
 #print axioms Agd.ProfileDB.version_mismatch_ignored
+#print axioms Agd.ProfileCache.addr_codec_roundtrip
+#print axioms Agd.ProfileCache.addr_codec_injective
+#print axioms Agd.ProfileCache.addr_decode_canonical
 #print axioms Agd.ProfileCache.filecache_roundtrip
 #print axioms Agd.ProfileCache.filecache_auth_counterexample
 #print axioms Agd.ProfileCache.backend_values_canon
